@@ -40,6 +40,7 @@ type Prog struct {
 	Inlined        []Inlined
 	RenamedFuncs   []Renamed
 	RenamedFields  []RenamedField
+	DeadNewPkgs    map[*types.Package]bool
 	renamed        map[string]*ssa.Function
 	inlinedCallees map[*ssa.Function]bool
 }
@@ -116,6 +117,7 @@ func Load(opt Options) (*Prog, error) {
 			}
 		}
 		p.RenamedFields = detectFieldRenames(tps)
+		p.DeadNewPkgs = newUnimportedPackages(tps)
 	}
 
 	if dump := os.Getenv("DCVERIF_DUMP_FUNCS"); dump != "" {
